@@ -97,6 +97,7 @@ fn main() {
         Some("selftest") => engines::selftest(),
         Some("oneshot") if args.len() >= 2 => engines::stress::oneshot_main(&args[1]),
         Some("digest") if args.len() >= 2 => engines::text::digest_main(&args[1]),
+        Some("layoutprobe") if args.len() >= 2 => engines::text::layoutprobe_main(&args[1]),
         Some("stress-dump") if args.len() >= 3 => {
             let s = engines::stress::stress_case(Tier::Quick, seed_from_env(), args[1].parse().unwrap());
             std::fs::write(&args[2], &s.text).unwrap();
